@@ -6,16 +6,16 @@ def plan(tier, seed):
     D = "parse_with_options(write_with_options(v)) == Ok(v), partial parser consumes everything"
     base = [H("c08::rt_u8", D, "all values"), H("c08::rtc_u32", D + " (cubes)", "0, powers of ten, MAX +- 255")]
     if tier == "thorough":
-        base += [H("c08::rt_%s" % t, D, "all values") for t in ("i8", "u16", "i16")] + [H("c08::rtc_%s" % t, D + " (cubes)", "") for t in ("i32", "u64", "i64")]
+        base += [H("c08::rt_i8", D, "all values")] + [H("c08::rtc_%s" % t, D + " (cubes)", "") for t in ("i32", "i64")]
     groups = [KGroup("RF", base, timeout=800 if tier == "quick" else 7200, jobs=8, mem_gb=12, label="decimal (radix+format build; the same harness needs > 800 s without the format feature)")]
     rad = ["c08::radix::rt_u8_r2", "c08::radix::rt_u8_r3", "c08::radix::rt_i8_r16", "c08::fmt::rt_i8_required_sign"]
     if tier == "thorough":
-        rad += ["c08::radix::rt_i8_r7", "c08::radix::rt_u16_r32", "c08::radix::rt_i16_r16", "c08::radix::rt_i16_r36", "c08::fmt::rt_i16_no_positive_sign"]
+        rad += ["c08::radix::rt_i8_r7"]
     groups.append(KGroup("RF", [H(n, D, "all values") for n in rad], timeout=800 if tier == "quick" else 7200, jobs=8, mem_gb=12, label="radix+format"))
     return {
         "kani": groups,
         "functions_encoded": ["lexical_core::{write_with_options, parse_with_options, parse_partial_with_options} (integers)"],
-        "bounds": ["every u8 value in decimal and radix 2/3, every i8 value in radix 16 and under the required-sign format, u32 cubes (quick); all 8/16-bit types, more radices and 32/64-bit cubes (thorough)"],
+        "bounds": ["every u8 value in decimal and radix 2/3, every i8 value in radix 16 and under the required-sign format, u32 cubes (quick); both 8-bit types, radix 7 and i32/i64 cubes in addition (thorough; the all-values 16-bit harnesses did not finish in 25 min and are not part of the check)"],
         "outside_claim": ["floats: acceptance of the formatting layer's output by the parser is not composed yet (C14 decodes the output with its own recogniser; C12/C10 cover the parser)",
                           "bit-for-bit float equality (= C01 after C02)", "128-bit integers; other radices"],
         "assumptions": [],
